@@ -181,7 +181,10 @@ def zero_crossing_rules(chk):
            derived="%d deleting op(s) %s, %d inserting op(s) depending on tol" % (len(drops), [d[0] for d in drops], len(ops_after)),
            loc=drops[0][2] if drops else fi.loc(), inconclusive=not drops and not ops_after)
     chk.ob("R-TOL-SUB", c + "(tol>0).result", "the result is a subsequence of the tol=0 result", any("subsequence" in v.tags for v in rets),
-           derived="%s" % [sorted(t for t in v.tags if t in ("subsequence",)) for v in rets], loc=fi.loc())
+           derived="%s" % [sorted(t for t in v.tags if t in ("subsequence",)) for v in rets], loc=fi.loc(),
+           # the subsequence tag is derived for np.delete / boolean keep-masks; a result assembled some other way (survivors collected in a list,
+           # a rebuilt array) with no deleting and no inserting operation located says nothing either way
+           inconclusive=(not drops and not ops_after))
     r = analyse(chk, ZC, lambda I, st, fi: dict(values=rec_array("values"), tol=const_av(-1.0)))
     normal = any(e.kind == "exit" and e.is_entry and e.normal for e in r.I.events)
     chk.ob("R-TOL-SUB", c + "(tol<0)", "a negative tolerance raises", not normal, derived="normal exit: %s" % normal, loc=fi.loc())
